@@ -327,10 +327,231 @@ def nontrivial_call(case, model):
     return any(k == "C" and (any(e.endswith(":p") for e in evs) or res.startswith("E")) for k, evs, res in obs)
 
 
+# ---------------------------------------------------------------------------------------------
+# factory level
+# ---------------------------------------------------------------------------------------------
+def fac_leaves(x):
+    """leaves of the service a factory tree builds, in evaluation order (id, script, [map_err closures])"""
+    h = x[0]
+    if h == "FL":
+        return [(x[1], x[6], [])]
+    if h == "FS":
+        return []
+    if h == "FA":
+        return fac_leaves(x[1]) + fac_leaves(x[2])
+    if h == "FE":
+        return [(i, s, m + [x[1]]) for (i, s, m) in fac_leaves(x[2])]
+    if h in ("FM", "FI", "FC", "FK", "FW"):
+        return fac_leaves(x[2])
+    if h == "FP":
+        return fac_leaves(x[3])
+    if h == "FU":
+        return fac_leaves(x[1])
+    if h == "FG":
+        return svc_leaves(x[1])
+    if h == "FH":
+        return fac_leaves(x[1])
+    if h == "FT":
+        return fac_leaves(x[8])
+    raise ValueError("fexpr head %r" % h)
+
+
+def fh_ids(x):
+    """ids of the closures of the apply_cfg_factory nodes of a factory tree"""
+    if not isinstance(x, list) or not x:
+        return []
+    out = [x[2]] if x[0] == "FH" else []
+    for y in x[1:]:
+        if isinstance(y, list):
+            out += fh_ids(y)
+    return out
+
+
+def gen_fleaf(rng, ids, cty):
+    i = ids[0]
+    ids[0] += 1
+    rs = rng.choice(REG_SCRIPTS) if rng.random() < 0.85 else rng.choice(IRR_SCRIPTS)
+    kind = rng.choice(["d", "d", "c", "n"])
+    return ["FL", str(i), kind, str(rng.randint(0, 2)), str(rng.randint(0, 2)), str(rng.choice([-1, -1, -1, 0, 1, 2])), rs,
+            str(rng.randint(0, 2)), str(rng.randint(0, 2)), str(rng.choice([-1, -1, 0, 1, 2])), rng.choice(MAPPERS)]
+
+
+def fresh(ids):
+    i = ids[0]
+    ids[0] += 1
+    return str(i)
+
+
+def gen_fexpr(rng, depth, ids, cty, maxleaves=3):
+    """random factory tree, well typed for config type cty ('u' = (), 'z' = number)"""
+    if depth <= 0 or ids[0] >= maxleaves + 2 or rng.random() < 0.1:
+        r = rng.random()
+        if r < 0.8:
+            return gen_fleaf(rng, ids, cty)
+        if r < 0.9:
+            return ["FS", fresh(ids), str(rng.randint(0, 2)), str(rng.randint(0, 2)), str(rng.choice([-1, 0, 1])), rng.choice(MAPPERS)]
+        s = gen_sexpr(rng, rng.randint(0, 1), ids, ids[0] + 2)
+        return ["FG", s, fresh(ids), str(rng.randint(0, 2)), rng.choice(["-", "-", "-", "8"])]
+    r = rng.random()
+    d = depth - 1
+    if r < 0.28:
+        return ["FA", gen_fexpr(rng, d, ids, cty, maxleaves), gen_fexpr(rng, d, ids, cty, maxleaves)]
+    if r < 0.36:
+        return ["FM", rng.choice(MAPPERS), gen_fexpr(rng, d, ids, cty, maxleaves)]
+    if r < 0.44:
+        return ["FE", rng.choice(MAPPERS), gen_fexpr(rng, d, ids, cty, maxleaves)]
+    if r < 0.53:
+        return ["FI", rng.choice(MAPPERS), gen_fexpr(rng, d, ids, cty, maxleaves)]
+    if r < 0.60:
+        if rng.random() < 0.8:
+            return ["FP", rng.choice(MAPPERS), rng.choice(MAPPERS), gen_fexpr(rng, d, ids, cty, maxleaves)]
+        return ["FK", rng.choice(["O7", "E8"]), gen_fexpr(rng, d, ids, cty, maxleaves)]
+    if r < 0.67 and cty == "z":
+        return ["FC", rng.choice(MAPPERS), gen_fexpr(rng, d, ids, "z", maxleaves)]
+    if r < 0.72:
+        return ["FU", gen_fexpr(rng, d, ids, "u", maxleaves)]
+    if r < 0.82:
+        inner = gen_fexpr(rng, d, ids, "u", maxleaves)
+        return ["FH", inner, fresh(ids), str(rng.randint(0, 2)), rng.choice(["-", "-", "-", "9"])]
+    if r < 0.93:
+        inner = gen_fexpr(rng, d, ids, cty, maxleaves)
+        return ["FT", fresh(ids), str(rng.randint(0, 2)), rng.choice(["-", "-", "-", "6"]), rng.choice(["0", "1"]),
+                rng.choice(["-", "-"] + MAPPERS[:3] + ["#3"]), rng.choice(MAPPERS), rng.choice(MAPPERS), inner]
+    return ["FW", rng.choice(["bx", "rc", "ar"]), gen_fexpr(rng, d, ids, cty, maxleaves)]
+
+
+def gen_fac_case(rng, ready_heavy):
+    cty = "z" if rng.random() < 0.75 else "u"
+    f = gen_fexpr(rng, rng.randint(1, 3), [0], cty)
+    cfg = str(rng.randint(0, 2)) if cty == "z" else "u"
+    ops = gen_ops(rng, rng.randint(1, 3), rng.randint(0, 2)) if ready_heavy else gen_ops(rng, rng.randint(0, 1), rng.randint(1, 2))
+    return sx_show(f) + " ; " + cfg + " ; " + ops
+
+
+def exhaustive_fac_small():
+    """and_then over two leaf factories: every (delay, outcome) pair, under a few unary contexts; plus
+    create/wait/configure over every regular readiness script"""
+    out = []
+
+    def fl(i, k, fail, rs="o"):
+        # delay k for every config (fdm = 0); fails for config 1 iff fail
+        return ["FL", str(i), "d", str(k), "0", "1" if fail else "-1", rs, "1", "1", "-1", "+%d" % (i + 1)]
+    ctx = [lambda a: a, lambda a: ["FI", "#1", a], lambda a: ["FW", "bx", a], lambda a: ["FM", "*2", a],
+           lambda a: ["FT", "7", "1", "-", "0", "-", "+1", "*2", a], lambda a: ["FT", "7", "1", "6", "1", "#3", "+1", "*2", a]]
+    for ka, kb, ea, eb in itertools.product(range(3), range(3), (False, True), (False, True)):
+        for c in ctx:
+            out.append(sx_show(c(["FA", fl(0, ka, ea), fl(1, kb, eb)])) + " ; 1 ; R C0 C1")
+    for rs in REG_SCRIPTS + IRR_SCRIPTS:
+        for k, kc, fail in itertools.product(range(3), range(3), ("-", "9")):
+            f = ["FH", ["FU", fl(0, k, False, rs)], "5", str(kc), fail]
+            out.append(sx_show(f) + " ; 2 ; R R C1")
+            f = ["FH", ["FE", "#4", fl(0, k, False, rs)], "5", str(kc), fail]
+            out.append(sx_show(f) + " ; u ; R C1")
+    return out
+
+
+def fac_refs(refs):
+    """-> (value, polls, [leaf(cfg)], rest-of-refs)"""
+    m = re.match(r"^S(\S+)/(\d+) L(\S*)(?: (.*))?$", refs)
+    if not m:
+        return None
+    return m.group(1), int(m.group(2)), (m.group(3).split(",") if m.group(3) else []), m.group(4) or ""
+
+
+def why_fac(case, impl, model):
+    obs = parse_trace(impl)
+    if obs is None or not obs or obs[0][0] != "N":
+        return "crash"
+    _, refs = split_model(model)
+    fr = fac_refs(refs)
+    if fr is None:
+        return "shape"
+    val, _polls, leaves, rest = fr
+    _, evs, res = obs[0]
+    if res.split("/")[0] != val:
+        return "factory-value"
+    news = [e[1:] for e in evs if e[0] == "n"]
+    if sorted(news) != sorted(leaves):
+        return "factory-once"
+    if any(e[0] == "n" for _, ev2, _ in obs[1:] for e in ev2):
+        return "factory-once"
+    # apply_cfg_factory: create, wait ready, THEN configure: the readiness round right before the
+    # closure runs must not contain a Pending or failing leaf
+    try:
+        tree = sx_parse(split_case(case)[0])
+    except Exception:
+        return "shape"
+    for gid in fh_ids(tree):
+        tag = "g%s(" % gid
+        for k, e in enumerate(evs):
+            if e.startswith(tag):
+                rr = [re.match(r"r\d+@(\d+):(\S+)$", x) for x in evs[:k]]
+                rr = [(int(m.group(1)), m.group(2)) for m in rr if m]
+                if rr:
+                    last = max(w for w, _ in rr)
+                    if any(a != "o" for w, a in rr if w == last):
+                        return "cfg-before-ready"
+    return c11_check_calls(obs[1:], call_refs(rest))
+
+
+def monitor_fac(case, impl, model):
+    return why_fac(case, impl, model) == ""
+
+
+def shrink_fac_tree(x):
+    h = x[0]
+    kids = {"FA": [1, 2], "FM": [2], "FE": [2], "FI": [2], "FC": [2], "FK": [2], "FW": [2], "FP": [3], "FU": [1], "FH": [1], "FT": [8]}.get(h, [])
+    for k in kids:
+        if h not in ("FU", "FH", "FC"):      # these change the config type of the child
+            yield x[k]
+    for k in kids:
+        for y in shrink_fac_tree(x[k]):
+            yield x[:k] + [y] + x[k + 1:]
+    if h == "FG":
+        for y in shrink_tree(x[1]):
+            yield [h, y] + x[2:]
+    if h == "FL":
+        if x[6] != "-":
+            yield x[:6] + ["-"] + x[7:]
+        if x[3:6] != ["0", "0", "-1"]:
+            yield x[:3] + ["0", "0", "-1"] + x[6:]
+        if x[7:10] != ["0", "0", "-1"]:
+            yield x[:7] + ["0", "0", "-1"] + x[10:]
+    if h == "FT" and x[2:6] != ["0", "-", "0", "-"]:
+        yield x[:2] + ["0", "-", "0", "-"] + x[6:]
+    if h in ("FH", "FG") and x[3:5] != ["0", "-"]:
+        yield x[:3] + ["0", "-"]
+
+
+def shrink_fac(case):
+    fs, cfg, ops = split_case(case)
+    ol = ops.split()
+    for i in range(len(ol)):
+        yield fs + " ; " + cfg + " ; " + " ".join(ol[:i] + ol[i + 1:])
+    try:
+        x = sx_parse(fs)
+    except Exception:
+        return
+    for y in shrink_fac_tree(x):
+        yield sx_show(y) + " ; " + cfg + " ; " + ops
+
+
+def nontrivial_fac(case, model):
+    tr, _ = split_model(model)
+    obs = parse_trace(tr) or []
+    return bool(obs) and (any(e.endswith(":p") for e in obs[0][1]) or obs[0][2].startswith("E"))
+
+
 def streams(ctx):
     n = 6000 if ctx.tier == "quick" else 150000
     cases = exhaustive_small() + [gen_svc_case(ctx.rng, False) for _ in range(n)]
     s1 = Stream("svc11", "svc", cases, monitor=monitor_svc, nontrivial=nontrivial_call, shrink=shrink_svc,
                 compare=compare, finding_key=lambda c, i, m: why_svc(c, i, m),
                 describe="%d structured + %d random service trees, ops mostly calls" % (len(cases) - n, n))
-    return [s1]
+    nf = 6000 if ctx.tier == "quick" else 150000
+    ex = exhaustive_fac_small()
+    fcases = ex + [gen_fac_case(ctx.rng, False) for _ in range(nf)]
+    s2 = Stream("fac11", "fac", fcases, monitor=monitor_fac, nontrivial=nontrivial_fac, shrink=shrink_fac,
+                compare=compare, finding_key=lambda c, i, m: why_fac(c, i, m),
+                describe="%d structured + %d random factory trees, then ops on the built service" % (len(ex), nf))
+    return [s1, s2]
